@@ -1051,6 +1051,37 @@ func checkClockRebuild(c *Ctx) {
 	} else {
 		c.Undecided("R5.5", "anchor:GoGitRepo.getClock", "repository", "not found")
 	}
+	// clocks are never taken away: no entry of the clocks table is deleted and no clock file removed (a rebuild only witnesses upwards)
+	{
+		bad := ""
+		for _, f := range w.ModFns {
+			if fnPkgPath(f) != modPath+"/repository" || isInstance(f) || w.isTestHelper(f) {
+				continue
+			}
+			for _, cl := range Calls(f) {
+				if bi, ok := cl.Instr.Common().Value.(*ssa.Builtin); ok && bi.Name() == "delete" {
+					if _, fld, isF := loadOfField(cl.Instr.Common().Args[0]); isF && fld == "clocks" {
+						bad = "an entry of the clocks table is deleted at " + w.InstrPos(cl.Instr)
+					}
+					continue
+				}
+				if strings.HasSuffix(cl.Name, ".Remove") || strings.HasSuffix(cl.Name, ".RemoveAll") {
+					for _, a := range cl.Args() {
+						if !isStringType(a.Type()) {
+							continue
+						}
+						for _, t := range templatesOf(a) {
+							if strings.HasPrefix(t.String(), "clocks") || strings.Contains(t.String(), "/clocks") {
+								bad = "a clock file is removed at " + w.InstrPos(cl.Instr)
+							}
+						}
+					}
+				}
+			}
+		}
+		c.Sites++
+		c.Check(bad == "", "R5.5", "repository:clocks-never-taken-away", "repository", "no deletion from the clocks table, no removal of a clock file", bad+": a surviving clock that was ahead of the stored entities (after a removal, an identity change, an aborted commit) restarts from what a rebuild finds — times already handed out are handed out again")
+	}
 	// the clocks table never replaces an instance it has handed out
 	{
 		nIns := 0
